@@ -208,6 +208,75 @@ func c02Excluded(tc l4Case, f *syntax.File, sh *shape) string {
 	if id := c01Excluded(tc, f, sh); id != "" {
 		return id
 	}
+	// C02-select-header-comment: selectClause (unlike forClause) leaves a comment between the word
+	// list and `do` to the first statement of the body; it is printed after that statement and
+	// pushes `done` to the next line, so the second pass sees `do stmt # c` NEWLINE `done` and
+	// moves the statement to a line of its own.
+	if !o.Minify && sh.any(func(n syntax.Node) bool {
+		fc, ok := n.(*syntax.ForClause)
+		if !ok || !fc.Select {
+			return false
+		}
+		before := func(cs []syntax.Comment) bool {
+			for _, cm := range cs {
+				if cm.Pos().Offset() < fc.DoPos.Offset() {
+					return true
+				}
+			}
+			return false
+		}
+		for _, st := range fc.Do {
+			if before(st.Comments) {
+				return true
+			}
+		}
+		return before(fc.DoLast)
+	}) {
+		return "C02-select-header-comment"
+	}
+	// C02-single-loop-header-comment: SingleLine joins a nested for/while/until/if clause to the
+	// line of its opener (`{ for i # c`), so the printer's line counter is behind the source line
+	// of the header comment and the comment is flushed before `do`/`then` (which moves to the next
+	// line); in the output clause and comment share a line and the second pass prints
+	// `for i; do # c`.  Over-approximated: SingleLine ∧ a comment between the clause keyword and
+	// its `do`/`then` ∧ the clause is not a top-level statement of the file.
+	if o.Single && hasComments(f) {
+		top := map[syntax.Node]bool{}
+		for _, st := range f.Stmts {
+			if st.Cmd != nil {
+				top[st.Cmd] = true
+			}
+		}
+		type span struct{ from, to uint }
+		var spans []span
+		var coms []uint
+		syntax.Walk(f, func(n syntax.Node) bool {
+			switch x := n.(type) {
+			case *syntax.Comment:
+				coms = append(coms, x.Pos().Offset())
+			case *syntax.ForClause:
+				if !x.Select && !top[n] {
+					spans = append(spans, span{x.ForPos.Offset(), x.DoPos.Offset()})
+				}
+			case *syntax.WhileClause:
+				if !top[n] {
+					spans = append(spans, span{x.WhilePos.Offset(), x.DoPos.Offset()})
+				}
+			case *syntax.IfClause:
+				if !top[n] && x.ThenPos.IsValid() {
+					spans = append(spans, span{x.Position.Offset(), x.ThenPos.Offset()})
+				}
+			}
+			return true
+		})
+		for _, cm := range coms {
+			for _, sp := range spans {
+				if cm > sp.from && cm < sp.to {
+					return "C02-single-loop-header-comment"
+				}
+			}
+		}
+	}
 	// C02-subshell-trailing-blank: `( (a)` NEWLINE `)` — the inner command starts with a parenthesis
 	// on the line of the outer `(`, so a blank is written, and then the closing parenthesis on a
 	// later line forces a newline right after it: `( ` NEWLINE.  The second pass sees the inner
